@@ -216,7 +216,12 @@ func init() {
 		tr.st.Mem = tr.vc.Def("mem", Store(tr.st.Mem, obj, body))
 		cp := tr.vc.Fresh("buf_cap", SInt)
 		tr.vc.Assume(And(Le(ln, cp), Le(cp, maxLen)))
-		return Val{L: []*Term{obj, Int(0), ln, cp}}
+		// a buffer that was never written to hands out a nil slice; an emptied one does not:
+		// with no bytes in it the result may be either
+		some := tr.vc.Fresh("buf_nonnil", SBool)
+		o := tr.vc.Def("buf_obj", Ite(Or(Lt(Int(0), ln), some), obj, Int(0)))
+		c := tr.vc.Def("buf_cap", Ite(Eq(o, Int(0)), Int(0), cp))
+		return Val{L: []*Term{o, Int(0), ln, c}}
 	}
 	mk(bb+"Bytes", bytesOf)
 }
